@@ -54,6 +54,27 @@ def run(ctx):
     r10_getters_do_not_restart(ctx)
     r11_shared_counters(ctx)
     r12_one_path_authority(ctx)
+    r13_getstate_copies(ctx)
+
+
+def r13_getstate_copies(ctx, rule="C19.R13"):
+    """The cacher is pickled for every worker WHILE threads of the sending process may hold locks: a __getstate__ that prepares the outgoing state inside self.__dict__ itself
+    wipes the live object's bookkeeping (the thread then leaves its with-block with no row, the slot stays taken)."""
+    ctx.rule(rule, "pickling does not change the object that is pickled: in every __getstate__ of the package a name bound to exactly `self.__dict__` (or vars(self)) is never "
+                   "written through -- the outgoing state is a copy (self.__dict__.copy() / dict(self.__dict__))")
+    n = 0
+    for rel, mod in sorted(ctx.model.modules.items()):
+        if rel.startswith("coba/tests"):
+            continue
+        for fn in [f for f in ast.walk(mod.tree) if isinstance(f, ast.FunctionDef) and f.name == "__getstate__"]:
+            n += 1
+            live = {t.id for st in walk_shallow(fn) if isinstance(st, ast.Assign) and unparse(st.value) in ("self.__dict__", "vars(self)") for t in st.targets if isinstance(t, ast.Name)}
+            writes = [st for st in ast.walk(fn) if (isinstance(st, (ast.Assign, ast.AugAssign, ast.Delete)) and any(isinstance(t, ast.Subscript) and ((isinstance(t.value, ast.Name) and t.value.id in live) or unparse(t.value) == "self.__dict__")
+                                                                                                                  for t0 in (st.targets if not isinstance(st, ast.AugAssign) else [st.target]) for t in ast.walk(t0)))
+                      or (isinstance(st, ast.Call) and isinstance(st.func, ast.Attribute) and st.func.attr in ("pop", "update", "clear", "setdefault", "popitem") and ((isinstance(st.func.value, ast.Name) and st.func.value.id in live) or unparse(st.func.value) == "self.__dict__"))]
+            from ..model import qualname
+            ctx.ob(rule, rel, qualname(fn), (writes or [fn])[0], "the state handed to pickle is prepared in a copy, the live object keeps its attributes", not writes, detail={"writes": [unparse(w)[:60] for w in writes]})
+    ctx.floor(rule, "__getstate__ implementations in the package", n, 2)
 
 
 def r11_shared_counters(ctx, rule="C19.R11"):
@@ -82,7 +103,7 @@ def r11_shared_counters(ctx, rule="C19.R11"):
 
 def r12_one_path_authority(ctx, rule="C19.R12"):
     """contains / get / put / rmv / get_set must all mean the same file: the cache directory may start with ~ (the default does), which only _cache_path expands."""
-    ctx.rule(rule, "DiskCacher names a cache file through _cache_path only: no other method builds a Path / joins the directory with a name of its own")
+    ctx.rule(rule, "DiskCacher names a cache file through _cache_path, the place that expands ~: no other method builds a path from the cache directory without expanding it on the spot")
     cls = ctx.model.cls(CCH, "DiskCacher")
     n = 0
     for name, fn in sorted(cls.methods.items()):
@@ -91,7 +112,7 @@ def r12_one_path_authority(ctx, rule="C19.R12"):
         n += 1
         own = [c for c in ast.walk(fn) if isinstance(c, ast.Call) and (call_name(c) in ("Path", "pathlib.Path", "os.path.join", "join") or call_tail(c) == "joinpath")
                and any("_cache_dir" in unparse(a) or "_cache_name" in unparse(a) for a in c.args)
-               and not (len(c.args) == 1 and isinstance(parent(c), ast.Attribute) and parent(c).attr == "expanduser")]   # the directory itself, expanded (mkdir)
+               and not (isinstance(parent(c), ast.Attribute) and parent(c).attr == "expanduser")]   # a path that is expanded on the spot names the same file as _cache_path does
         ctx.ob(rule, CCH, f"DiskCacher.{name}", (own or [fn])[0], "the file is named by self._cache_path(key)", not own, trivial=not own, detail={"own paths": [unparse(c) for c in own]})
     ctx.floor(rule, "DiskCacher methods examined", n, 4)
 
@@ -639,6 +660,7 @@ def r9_presence_agreement(ctx, rule="C19.R9"):
 
 
 CONTROLS = [
+    ("a __getstate__ prepares its state inside the live __dict__", "coba/pipes/filters.py", M.replace_expr("Cache.__getstate__", "self.__dict__.copy()", "self.__dict__"), "C19.R13"),
     ("workers count readers and writers in private lists", "coba/multiprocessing.py", M.replace_expr("CobaMultiprocessor.filter", "ConcurrentCacher(CobaContext.cacher, array, lock)", "ConcurrentCacher(CobaContext.cacher, lock=lock)"), "C19.R11"),
     ("rmv names the file without expanding ~", CCH, M.replace_stmt("DiskCacher.rmv", lambda st: isinstance(st, ast.If), "path = Path(self._cache_dir, self._cache_name(key))\nif path.exists(): path.unlink()"), "C19.R12"),
     ("openml download restarts behind a partial body", "coba/environments/openml.py", M.replace_expr("OpenmlSource._http_request", "tries == 3 or n_lines", "tries == 3"), "C19.R10"),
